@@ -207,7 +207,7 @@ def strategy(tier):  # pylint:disable=unused-argument
                     text, ast = f"{indicator} [{rc}] ", ["rc", rc]
                 variants[name] = {"s": text, "parts": [[indicator, ast]]}
             pool.append(vtree.with_meaning(draw, {"q": qualifier, "expr": variants}))
-        entered = draw(st.sampled_from([None, "", "Q"] + qualifiers + qualifiers))
+        entered = draw(st.sampled_from([None, "", "Q", draw(st.sampled_from(gen.FOREIGN_TEXTS))] + qualifiers + qualifiers))
         rounds = {}
         for name, (table, _) in zip(("first", "second"), tables):
             rounds[name] = {"cer": draw(vtree.g_cer(weights=draw(st.sampled_from(["FU", "FFU", "FUK"])))), "table": table}
@@ -231,7 +231,7 @@ def strategy(tier):  # pylint:disable=unused-argument
             pool[position] = {**pool[position], "expr": {"s": invalid, "parts": [], "fault": True}}
         cer = draw(vtree.g_cer(weights=draw(st.sampled_from(["FUK", "FFU", "UUF", "U", "FUUK"]))))
         kind = draw(st.sampled_from(["none", "empty", "pool", "pool", "pool", "foreign"]))
-        entered = {"none": None, "empty": "", "foreign": draw(st.sampled_from(["Q", "zz", "a", " A"]))}.get(kind)
+        entered = {"none": None, "empty": "", "foreign": draw(st.sampled_from(gen.FOREIGN_TEXTS))}.get(kind)
         if kind == "pool":
             entered = draw(st.sampled_from(qualifiers))
         element = {"t": "vp", "d": "V", "pool": pool, "inp": entered}
